@@ -131,7 +131,8 @@ def run(pid):
     rep.add_model(r)
     hs = [h for h in hs if any(o["op"] in spec["own_ops"] for o in h)]
     cfgs = [dict(primary="mh", bits=8, il=30, pl=30, imm=False, keys=BASE_KEYS[:2], vals=["empty", "b5"], cmp=True, probe="all"),
-            dict(primary="mh", bits=8, il=70, pl=70, imm=False, keys=[BASE_KEYS[0], BASE_KEYS[2]], vals=["a1", "c40"], cmp=True, probe="end")]
+            # (second configuration: one key in the LAST bucket of the table)
+            dict(primary="mh", bits=8, il=70, pl=70, imm=False, keys=[BASE_KEYS[0], [255, 255, 255, 0, 9, 0, 3, 3]], vals=["a1", "c40"], cmp=True, probe="end")]
     if thorough:
         cfgs.append(dict(primary="cid", bits=8, il=30, pl=30, imm=False, keys=BASE_KEYS[:2], vals=["nil", "b5"], cmp=True, probe="all"))
     scens = [{"cfg": c, "ops": fix_ops(c, h)} for c in cfgs for h in hs]
